@@ -221,6 +221,43 @@ Eval vm_compute in (length cases, length bad, firstn 3 bad).
     return int(m.group(2)), m.group(3)
 
 
+def replay(ctx, overlay):
+    """bin/check C04 --replay replays/C04-<seed>-<n>.json : re-execute the recorded schedule / op sequence"""
+    rp = json.load(open(ctx.replay_path))
+    body = rp.get("replay", {})
+    if body.get("scenario") and body.get("schedule (thread chosen at each yield point)") is not None:
+        with open(os.path.join(ctx.work, "c04_replay_in.jsonl"), "w") as f:
+            f.write(json.dumps({"Scenario": body["scenario"], "Sched": body["schedule (thread chosen at each yield point)"]}) + "\n")
+        rc, out = mu.go_test(ctx, overlay, "^TestVerifC04Replay$", timeout=600)
+        res = read_jsonl(os.path.join(ctx.work, "c04_replay_out.jsonl"))
+        for r in res:
+            print("history:")
+            for h in r.get("Hist") or []:
+                print("   ", h)
+            for v in r.get("Violations") or []:
+                ctx.violation("replay:" + v["Sig"], v["What"], {"replayed": ctx.replay_path})
+        if rc != 0:
+            ctx.tie_broken("replay harness", out[-2000:])
+    elif body.get("ops"):
+        kind = body.get("mailbox")
+        case = {"K": kind, "C": body.get("capacity", 0), "P": body.get("priority_family", 0), "Ops": body["ops"]}
+        with open(os.path.join(ctx.work, "c04_seq_in.jsonl"), "w") as f:
+            f.write(json.dumps(case) + "\n")
+        rc, out = mu.go_test(ctx, overlay, "^TestVerifC04Seq$", timeout=600)
+        res = read_jsonl(os.path.join(ctx.work, "c04_seq_out.jsonl"))
+        if res:
+            print("observed:", res[0]["R"])
+            orc = mu.SeqOracle(case["K"], case["C"], case["P"])
+            for op, r in zip(case["Ops"], res[0]["R"]):
+                v = orc.step(op, r)
+                if v:
+                    ctx.violation("replay:seq:%s:%s" % (kind, v[0]), v[1], {"replayed": ctx.replay_path})
+                    break
+    else:
+        print("nothing replayable in", ctx.replay_path)
+    ctx.coverage.update({"evaluations": 1, "distinct_nontrivial": 1, "rule": "replay of one recorded case", "samples": [ctx.replay_path]})
+
+
 # ------------------------------------------------------------------------------------------------
 def run(ctx):
     ctx.trusted += [
@@ -239,6 +276,8 @@ def run(ctx):
     overlay, notes = mu.build_overlay(ctx, test_files)
     if not notes.get("instrumented"):
         ctx.tie_broken("mbinstr could not instrument the mailbox files", notes)
+    if ctx.replay_path:
+        return replay(ctx, overlay)
 
     cases = gen_seq_cases(ctx)
     scs = gen_scenarios(ctx) if notes.get("instrumented") else []
@@ -382,6 +421,27 @@ def run(ctx):
             ctx.violation(sig, "%s [stress %s]: %s" % (s["Cfg"]["K"], json.dumps(s["Cfg"]), v["What"]), {"stress": s["Cfg"], "seed": ctx.seed})
 
     ctx.log("schedules/stress evaluated")
+    # ---- thorough: the stress harness again under the race detector (supporting evidence only)
+    if ctx.thorough and rc == 0:
+        for fn in ("c04_stress_out.jsonl",):
+            pth = os.path.join(ctx.work, fn)
+            if os.path.exists(pth):
+                os.remove(pth)
+        rc_r, out_r = mu.go_test(ctx, overlay, "^TestVerifC04Stress$", timeout=1500, race=True)
+        ctx.notes.append("race-detector pass over the stress harness: rc=%d" % rc_r)
+        if "WARNING: DATA RACE" in out_r:
+            i = out_r.index("WARNING: DATA RACE")
+            frames = out_r[i:i + 3000]
+            if "mailbox.go" in frames or "priority_intake.go" in frames:
+                ctx.violation("data-race", "the race detector reports a data race inside the mailbox code under the stress harness", {"report": frames})
+            else:
+                ctx.notes.append("race detector report outside the mailbox files (harness bookkeeping): ignored")
+        for s in read_jsonl(os.path.join(ctx.work, "c04_stress_out.jsonl")):
+            for v in s.get("Violations") or []:
+                if v["Sig"] not in sig_seen:
+                    sig_seen[v["Sig"]] = 1
+                    ctx.violation(v["Sig"], "%s [stress under -race %s]: %s" % (s["Cfg"]["K"], json.dumps(s["Cfg"]), v["What"]), {"stress": s["Cfg"], "seed": ctx.seed})
+
     # ---- the theorems
     if not ctx.coq_property():
         if not any(f.kind == "violation" for f in ctx.findings):
